@@ -3,7 +3,8 @@
    coq/xcheck re-implement, in Gallina, the result PRINTERS of the OCaml drivers (ocaml/<engine>/driver.ml)
    so that the text a driver prints for a case can be compared with what the model computes for the same
    case inside Coq (vm_compute).  Definitions only, no proofs, no axioms. *)
-From Coq Require Import NArith.
+From Coq Require Import NArith Uint63.
+From Coq Require Import String.   (* before Str: List.length, ++ on lists etc. must win *)
 From Grog Require Import Str.
 
 (* string literals of the generated case files: [L "printable ascii"] or [bytes [104; 105]] *)
@@ -12,18 +13,39 @@ Arguments L s%string.
 Definition bytes (l : list N) : str := map ascii_of_N l.
 Arguments bytes l%N.
 
+(* long strings: seven bytes per primitive 63-bit integer literal, least significant byte first, closed by a
+   byte 1 (so that trailing zero bytes survive): "ab" = 0x016261.  Coq's front end spends 30-50 us on every
+   token of a literal whatever its kind, so this is what keeps a cases.v of a megabyte of strings in budget. *)
+Definition ascii_of_int (x : int) : ascii :=
+  Ascii (bit x 0) (bit x 1) (bit x 2) (bit x 3) (bit x 4) (bit x 5) (bit x 6) (bit x 7).
+Fixpoint unpack1 (fuel : nat) (x : int) : str :=
+  match fuel with
+  | 0 => []
+  | S f => if (x =? 1)%uint63 then [] else ascii_of_int x :: unpack1 f (x >> 8)%uint63
+  end.
+Definition P (l : list int) : str := flat_map (unpack1 8) l.
+
 Definition tab : str := ["009"%char].
 Definition tabs (l : list str) : str := join tab l.
 
 Definition b01 (b : bool) : str := if b then L "1" else L "0".
 
 (* ---- Wire.hex : "-" for the empty string, two lower-case digits per byte otherwise *)
-Definition hexdigit (n : nat) : ascii :=
-  nth n ["0";"1";"2";"3";"4";"5";"6";"7";"8";"9";"a";"b";"c";"d";"e";"f"]%char "?"%char.
+Definition nib (b3 b2 b1 b0 : bool) : ascii :=
+  match b3, b2, b1, b0 with
+  | false, false, false, false => "0" | false, false, false, true => "1"
+  | false, false, true, false => "2"  | false, false, true, true => "3"
+  | false, true, false, false => "4"  | false, true, false, true => "5"
+  | false, true, true, false => "6"   | false, true, true, true => "7"
+  | true, false, false, false => "8"  | true, false, false, true => "9"
+  | true, false, true, false => "a"   | true, false, true, true => "b"
+  | true, true, false, false => "c"   | true, true, false, true => "d"
+  | true, true, true, false => "e"    | true, true, true, true => "f"
+  end%char.
 Fixpoint hex_raw (s : str) : str :=
   match s with
   | [] => []
-  | c :: s' => let n := nat_of_ascii c in hexdigit (n / 16) :: hexdigit (n mod 16) :: hex_raw s'
+  | Ascii b0 b1 b2 b3 b4 b5 b6 b7 :: s' => nib b7 b6 b5 b4 :: nib b3 b2 b1 b0 :: hex_raw s'
   end.
 Definition hex (s : str) : str := match s with [] => L "-" | _ => hex_raw s end.
 
